@@ -479,6 +479,19 @@ for _k in ("DecInt", "HexInt", "OctInt", "BinInt"):
     _reg_literal_token(_k)
 
 
+def _reg_literal_token_long(kind, L):
+    @obligation("C12/literal-is-one-token[%s, up to %d bytes]" % (kind, L), profiles=("dev",), tier="thorough",
+                desc="as C12/literal-is-one-token[%s], for sources of up to %d bytes" % (kind, L))
+    def _ob(O, kind=kind, L=L):
+        from . import lexing
+        lexing.literal_is_one_token(O, kind, rep(), longest=L)
+    return _ob
+
+
+for _k, _l in (("DecInt", 80), ("HexInt", 80), ("OctInt", 80), ("BinInt", 160)):
+    _reg_literal_token_long(_k, _l)
+
+
 @obligation("C12/no-parse-cache", profiles=("dev",),
             desc="the crate keeps no mutable global state (no statics with interior mutability, no thread-locals, locks or "
                  "once-cells in any body outside dig.rs / errors.rs): whether a text is accepted is decided by parsing that text, "
